@@ -10,7 +10,7 @@ LEVEL = "exploration"
 NEED = ("h4x",)
 RULE = ("three case families: (coder) byte strings from an edge grammar (runs/mixes at 1,2,3,126..131,255..260, "
         "incompressible, empty, up to ~70000 bytes) x coder in {none, RLE, skphuff skip 1..9, deflate 0..9} x "
-        "partition into 1..12 Hwrite calls x read sessions with forward/backward Hseek and Hread partitions x "
+        "partition into 1..12 Hwrite calls x read sessions with forward/backward Hseek (from the start, relative, from the end) and Hread partitions x "
         "optional full rewrite from offset 0 + appends x reopen; compressed stream also decoded by independent "
         "RLE/deflate/none decoders and sizes compared with HCPgetdatasize; (nbit) every integer type x legal "
         "start_bit/bit_len x sign_ext x fill_one, whole-value read partitions of varying sizes with seeks, compared "
@@ -259,7 +259,16 @@ def run_coder(case, d, labels):
                 tgt = min(op[1], len(cur))
                 if tgt < pos:
                     backseek = True
-                checks.append((p.call("i", "Hseek", V("r"), tgt, 0), "ret0", None))
+                # the same target expressed from the start, relative to the current position, or from the end
+                how = (op[1] + nreads) % 3
+                if how == 1:
+                    checks.append((p.call("i", "Hseek", V("r"), tgt - pos, 1), "ret0", None))
+                    labels.add("seek_relative")
+                elif how == 2:
+                    checks.append((p.call("i", "Hseek", V("r"), tgt - len(cur), 2), "ret0", None))
+                    labels.add("seek_from_end")
+                else:
+                    checks.append((p.call("i", "Hseek", V("r"), tgt, 0), "ret0", None))
                 pos = tgt
             else:
                 want = op[1]
